@@ -116,6 +116,13 @@ def check_case(case, ctx):
             return
         pts = []
         for sel in case["vertices"]:
+            if not defined and sel["kind"] in ("vertex", "edge_mid", "near_edge", "nudge_out"):
+                # Synthesised cells (2-D CF grid without bounds) have corners that are means of
+                # three centres, i.e. not dyadic: a path laid exactly along such an edge is along
+                # it only up to rounding, and the length inside the cell is then ill-conditioned
+                # (exact arithmetic and GEOS legitimately disagree).  Paths along edges are
+                # exercised on the conventions whose corners are exact.
+                sel = dict(sel, kind="interior")
             xy = make_vertex(sel, rings, hole_rings, bbox)
             if xy is not None and -179 < xy[0] < 179 and -89 < xy[1] < 89:
                 pts.append((float(xy[0]), float(xy[1])))
